@@ -20,6 +20,7 @@ from .interp import (
     Interp,
     LambdaVal,
     ListObj,
+    prop_reduce,
     MapObj,
     Outcome,
     Ref,
@@ -108,18 +109,33 @@ class CallMixin(object):
         model = self.models.get(func.node)
         if model is not None:
             return model(self, st, args, kwargs, node, module)
-        if len(self.call_stack) >= MAX_DEPTH or func.node in self.call_stack:
+        # self-recursion is followed while the abstract arguments decide it (bounded re-entry)
+        if len(self.call_stack) >= MAX_DEPTH or self.call_stack.count(func.node) >= 3:
             raise AnalysisError("E5.call", "recursion / inlining depth exceeded at %s" % func.qualname, node, module)
         e = self.alloc(st, EnvObj(closure, func.module, func))
         env = st.heap[e.id]
         a = func.node.args
         params = [x.arg for x in a.posonlyargs + a.args]
-        if a.vararg or a.kwarg:
-            raise AnalysisError("E5.call", "*args/**kwargs in %s" % func.qualname, func.node, func.module)
         defaults = [None] * (len(params) - len(a.defaults)) + list(a.defaults)
         if len(args) > len(params):
-            self.hazard(st, "TypeError", node, module, TRUE, "too many arguments for %s" % func.name)
-            raise Dead()
+            if a.vararg:
+                rest = ListObj([(TRUE, x) for x in args[len(params) :]])
+                rest.kind_tuple = True
+                env.vars[a.vararg.arg] = self.alloc(st, rest)
+                args = args[: len(params)]
+            else:
+                self.hazard(st, "TypeError", node, module, TRUE, "too many arguments for %s" % func.name)
+                raise Dead()
+        elif a.vararg:
+            env.vars[a.vararg.arg] = self.alloc(st, ListObj([]))
+        if a.kwarg:
+            known = set(params) | set(x.arg for x in a.kwonlyargs)
+            extra = MapObj(False, "kwargs")
+            for k in kwargs:
+                if k not in known:
+                    extra.set(k, TRUE, kwargs[k])
+            env.vars[a.kwarg.arg] = self.alloc(st, extra)
+            kwargs = dict((k, v) for k, v in kwargs.items() if k in known)
         for i, p in enumerate(params):
             if i < len(args):
                 env.vars[p] = args[i]
@@ -362,15 +378,15 @@ class CallMixin(object):
             return False
 
         if not collect(c):
-            return c
+            return prop_reduce(c)
         fo = st.folder()
         if not fo.can_fold(atoms):
-            return c
+            return prop_reduce(c)
         nrows = 1
         for sl in set(x for a in atoms if isinstance(a, Fin) for x in a.slots):
             nrows *= len(fo.domain(sl))
         if nrows > 8192:
-            return c
+            return prop_reduce(c)
         slots = set()
         for a in atoms:
             if isinstance(a, Fin):
@@ -465,6 +481,34 @@ class CallMixin(object):
             m.set(k, TRUE, v)
         return self.alloc(st, m)
 
+    def positional_cases(self, st, lists, node, module):
+        """Positions in a sequence with conditionally present elements depend on which of the earlier
+        elements exist.  Splits on the distinct non-constant element guards and yields
+        (case condition, [concrete value list per input list]) for every feasible case."""
+        guards = {}
+        for items in lists:
+            for g, _ in items:
+                if not isinstance(g, Const):
+                    guards.setdefault(g.sortkey(), g)
+        if not guards:
+            yield TRUE, [[v for g, v in items if truth_const(g.v)] for items in lists]
+            return
+        if len(guards) > 6:
+            raise AnalysisError("E5.loop", "positional iteration over a sequence with %d independent optional elements" % len(guards), node, module)
+        keys = sorted(guards)
+        import itertools
+
+        for bits in itertools.product((True, False), repeat=len(keys)):
+            choice = dict(zip(keys, bits))
+            cond = mk_and([guards[k] if choice[k] else mk_not(guards[k]) for k in keys])
+            cond = self.try_fold_bool(st, cond) if isinstance(cond, BoolOp) else cond
+            if self.decide(st, cond) is False:
+                continue
+            concrete = []
+            for items in lists:
+                concrete.append([v for g, v in items if (truth_const(g.v) if isinstance(g, Const) else choice[g.sortkey()])])
+            yield cond, concrete
+
     def iter_builtin(self, st, name, args, node, module):
         if name == "range":
             if not all(isinstance(a, Const) and isinstance(a.v, int) for a in args):
@@ -473,12 +517,17 @@ class CallMixin(object):
         if name == "enumerate":
             items = self.iter_values(st, args[0], node, module)
             start = args[1].v if len(args) > 1 and isinstance(args[1], Const) else 0
-            return [(g, TupleVal([Const(start + i), v])) for i, (g, v) in enumerate(items)]
+            out = []
+            for cond, (concrete,) in self.positional_cases(st, [items], node, module):
+                for i, v in enumerate(concrete):
+                    out.append((cond, TupleVal([Const(start + i), v])))
+            return out
         if name == "zip":
             lists = [self.iter_values(st, a, node, module) for a in args]
             out = []
-            for row in zip(*lists):
-                out.append((mk_and([g for g, _ in row]), TupleVal([v for _, v in row])))
+            for cond, concrete in self.positional_cases(st, lists, node, module):
+                for row in zip(*concrete):
+                    out.append((cond, TupleVal(list(row))))
             return out
         if name == "reversed":
             return list(reversed(self.iter_values(st, args[0], node, module)))
@@ -499,8 +548,9 @@ class CallMixin(object):
                 if isinstance(v, int) and not isinstance(v, bool):
                     return Const(Dec(Fraction(v), str(v)))
                 if isinstance(v, Flt):
+                    # a literal double: Decimal() takes its exact binary expansion
                     self.event("decimal_from_float", node, module, st)
-                    return P.atom(App("Decimal", (P.const(v.q, "flt"),)), "dec")
+                    return Const(Dec(Fraction(float(v.q)), "Decimal(%s)" % (v.text if v.text is not None else v.q)))
             if isinstance(x, Fin) and is_discrete(x) and strish(x):
                 def d(s):
                     try:
@@ -512,6 +562,12 @@ class CallMixin(object):
             if p.kind in ("flt", "mixed"):
                 self.event("decimal_from_float", node, module, st)
             return P.atom(App("Decimal", (p,)), "dec")
+        if dotted == "collections.defaultdict":
+            if len(args) > 1 or kwargs:
+                raise AnalysisError("E5.call", "defaultdict() with initial content", node, module)
+            m = MapObj(False, "defaultdict")
+            m.default_factory = args[0] if args and not (isinstance(args[0], Const) and args[0].v is None) else None
+            return self.alloc(st, m)
         if dotted in ("copy.copy", "copy.deepcopy"):
             (x,) = args
             if isinstance(x, Ref):
@@ -710,6 +766,23 @@ class CallMixin(object):
                         o.set(k, mk_or([p0, p]), self.mk_ite(st, p, v, v0))
                     else:
                         o.set(k, p, v)
+                for k, v in kwargs.items():
+                    o.set(k, TRUE, v)
+                return Const(None)
+            if name == "update" and (args or kwargs):
+                # update(iterable of (key, value) pairs) / update(**kw)
+                pairs = self.iter_values(st, args[0], node, module) if args else []
+                for g, item in pairs:
+                    if not (isinstance(item, TupleVal) and len(item.items) == 2 and isinstance(item.items[0], Const)):
+                        raise AnalysisError("E5.call", "dict.update() with a non-constant key", node, module)
+                    k, v = item.items[0].v, item.items[1]
+                    if k in o.entries:
+                        p0, v0 = o.entries[k]
+                        o.set(k, mk_or([p0, g]), self.mk_ite(st, g, v, v0))
+                    else:
+                        o.set(k, g, v)
+                for k, v in kwargs.items():
+                    o.set(k, TRUE, v)
                 return Const(None)
             if name == "clear":
                 for k in o.order:
@@ -1325,6 +1398,7 @@ class StmtMixin(object):
         if a.kind == "map":
             o = MapObj(a.ordered, a.origin)
             o.input_ordered = a.input_ordered or b.input_ordered
+            o.default_factory = a.default_factory or b.default_factory
             for k in a.order + [k for k in b.order if k not in a.entries]:
                 if k in a.entries and k in b.entries:
                     pa, xa = a.entries[k]
